@@ -522,7 +522,7 @@ def run(ctx):
     raw.sort(key=lambda kc: kc[0] != "exhaustive")          # the big cases first, in their own shards
     cases = [ser_case(c) for _, c in raw]
     n_ex = sum(1 for k, _ in raw if k == "exhaustive")
-    bad = ctx.coq_failing(cases[:n_ex], "ok", imports=IMPORTS, shard=max(1, (n_ex + 1) // 2))
+    bad = ctx.coq_failing(cases[:n_ex], "ok", imports=IMPORTS, shard=max(1, (n_ex + 3) // 4))
     bad += [n_ex + i for i in ctx.coq_failing(cases[n_ex:], "ok", imports=IMPORTS, shard=max(1, (len(cases) - n_ex + 1) // 2))]
 
     # ---- histories on one object (set_/unset_ of every class, hash, ==, clone, union/intersection, <= interleaved)
